@@ -14,12 +14,12 @@ from .common import hx, unhx
 
 ID = 'C09'
 GEN_DEPS = []
-RULE = ('(a) values of 10 catalogue types (bool, ints of 4 widths and both signs, char, &str, String, Option, unit, newtype, unit enum, Vec<String>, Vec<u8>, '
-        'Vec<Option<u16>>, BTreeMap<String,String>, #[serde(default)]) over arbitrary Unicode / reserved characters / boundary numbers; '
+RULE = ('(a) values of 13 catalogue types (bool, ints of every width and both signs, f32 / f64 by bit pattern without NaN, char, &str, String, Option, unit, newtype, unit enums incl. variant names that need escapes, Vec<String>, Vec<u8>, '
+        'Vec<Option<u16>>, Vec<enum>, BTreeMap<String,String>, #[serde(default)]) over arbitrary Unicode / reserved characters / boundary numbers; '
         '(b) texts: grammar-generated encodings with escapes, shuffled fields, unknown and duplicate keys, separators doubled or missing, plus raw byte noise; '
-        '(c) query strings.  non-trivial = value with a string needing escapes, an option, a sequence or a map entry; text with an escape, an unknown key or a '
+        '(c) query strings, 35 % of them read into a request object that held another query before.  non-trivial = value with a string needing escapes, an option, a sequence or a map entry; text with an escape, an unknown key or a '
         'malformed separator; distinct by canonical JSON')
-ASSUMPTIONS = ['floats are outside the catalogue (compared as text only, DESIGN 6.0)',
+ASSUMPTIONS = ['floats: the round trip is judged on the implementation alone, bit for bit (how Rust prints a float is not modelled); NaN is not generated (it equals nothing)',
                'round trip is claimed under the hypotheses of `roundtrip_struct`: `unamb` (no Some(""), no [""], no empty map key) and `wellTyped` (&str fields hold only strings whose encoding is the identity)',
                'the catalogue of Rust target types in harness/src/c09.rs and the type descriptors here are kept in step by hand']
 
@@ -151,6 +151,28 @@ def gen_value(rng, t):
     if "struct" in t: return {"struct": [[n, gen_value(rng, ft)] for (n, ft, d) in t["struct"]]}
 
 
+FLOAT_T = ST(("f", {"float": 64}, False), ("g", {"float": 32}, False), ("o", O({"float": 64}), False), ("v", {"seq": {"float": 32}}, False))          # tid 12: not in CAT (no model of how Rust prints floats)
+
+
+def gen_float(rng, bits):
+    import struct
+    fmt, ifmt, n = ('>d', '>Q', 16) if bits == 64 else ('>f', '>I', 8)
+    r = rng.random()
+    if r < 0.45:
+        x = rng.choice([0.0, -0.0, 1.0, -1.0, 0.1, 0.5, 1.5, 3.141592653589793, 1e21, 1e-7, 123456789.125, -2.5e-5, 1e300, 5e-324, 1.7976931348623157e308, 2.2250738585072014e-308, float('inf'), float('-inf'), 16777217.0, 1e16, 0.3, 2 / 3])
+        try: b = struct.pack(fmt, x)
+        except OverflowError: b = struct.pack(fmt, float('inf'))
+    else:
+        while True:
+            b = bytes(rng.randrange(256) for _ in range(bits // 8))
+            if struct.unpack(fmt, b)[0] == struct.unpack(fmt, b)[0]: break          # no NaN: it equals nothing, itself included
+    return {"fbits": b.hex()}
+
+
+def gen_float_struct(rng):
+    return {"struct": [["f", gen_float(rng, 64)], ["g", gen_float(rng, 32)], ["o", "none" if rng.random() < 0.3 else {"some": gen_float(rng, 64)}], ["v", {"seq": [gen_float(rng, 32) for _ in range(rng.choice([0, 1, 2, 4]))]}]]}
+
+
 def de_case(tid, inp): return {'case': {'tid': tid, 'ty': CAT[tid], 'input': inp.hex()}, 'stream': 'text'}
 def rt_case(tid, v): return {'case': {'tid': tid, 'ty': CAT[tid], 'value': v, 'firstFlag': True}, 'stream': 'value'}
 
@@ -181,6 +203,8 @@ def generate(rng, tier):
     for _ in range(n):
         tid = rng.randrange(len(CAT))
         out.append(rt_case(tid, gen_value(rng, CAT[tid])))
+    for _ in range(n // 10):          # floats round-trip too (judged on the implementation alone)
+        out.append({'case': {'tid': 12, 'ty': FLOAT_T, 'value': gen_float_struct(rng), 'firstFlag': True, 'nomodel': True}, 'stream': 'value'})
     for _ in range(n // 4):
         q = b'&'.join(rng.choice([b'k=v', b'a=%41%20b', b'x=', b'novalue', b'=empty', b'j=%E3%81%82', b'', b'b=%FF', b'k=v=w', b'p=a+b', b'%6B=1', b'%3D=%26', b'a=%zz', b'a=%4'])
                       for _ in range(rng.choice([0, 1, 2, 3, 5])))
@@ -290,6 +314,7 @@ def judge(case, out, m):
     tid = case['tid']
     if 'value' in case:
         hyp = None
+        if case.get('nomodel'): mm, hyp = None, True          # floats: every value (NaN is not generated) is unambiguous and must come back bit for bit
         if mm is not None:
             mb = dict(mm)
             if mb.get("outcome") == "ok" and isinstance(mb.get("back"), dict):
